@@ -1700,13 +1700,32 @@ func genMp(w *bufio.Writer, r *rng, thorough bool, id string) {
 		ns = []int{1, 2, 3, 4, 5, 7, 15, 16, 17, 31, 32, 33, 64, 100, 257, 300}
 	}
 	labels := []string{"-", labelHex("test"), labelHex("vt"), hx(bytes.Repeat([]byte{0xab}, 70))}
-	for _, n := range ns {
+	// histories: verifications that END IN AN ERROR (wrong number of L/R points, for statements with non-zero
+	// claimed values at the domain edges and in the middle) in between the honest proofs of the same process —
+	// an honest proof must verify whatever the verifier was shown before (no scratch state may survive an
+	// error return)
+	var refused func()
+	if id == "C01" {
+		hb := makeHonestAt(r, []uint8{0, 7, 255})
+		hc := makeHonestAt(r, []uint8{3, 3, 128, 254})
+		refused = func() {
+			for _, h := range []honest{hb, hc} {
+				emit(w, "%s", h.line(h.label, h.cs, h.zs, h.ys, h.d, h.ls[:7], h.rs[:7], h.a))
+				emit(w, "%s", h.line(h.label, h.cs, h.zs, h.ys, h.d, h.ls, h.rs[:7], h.a))
+			}
+		}
+		refused()
+	}
+	for k, n := range ns {
 		pats := []int{0, 1, 2, 3, 4, 5}
 		if !thorough {
 			pats = []int{r.intn(3), 3 + r.intn(3)}
 		}
 		for _, p := range pats {
 			emit(w, "mp %s %s", r.pick(labels), openingSet(r, n, p, 1))
+		}
+		if refused != nil && k%3 == 1 {
+			refused()
 		}
 	}
 	// dense polynomials opened at the extreme domain points (largest index distances in the tables)
